@@ -213,6 +213,10 @@ def main(tier, seed):
                 if a.denominator != 1 or a <= 0 or b.denominator != 1 or b < 0:
                     violations.append({"what": f"converting {u['name']} to the common point unit of {names} is x -> {a}*x + {b}: not a positive "
                                                "integer scale and a non-negative integer offset", "class": "affine-int", "rec": rec})
+                elif 7 * a + b >= 2 ** 56:
+                    # the measurement runs in long long: beyond this size the library's own intermediate products may overflow
+                    # (outside the statement: "for every input that does not overflow"); the integrality clauses above still apply
+                    stats["affine_not_measured_too_large"] = stats.get("affine_not_measured_too_large", 0) + 1
                 elif (f0, f1, f7) != (int(b), int(a + b), int(7 * a + b)):
                     violations.append({"what": f"measured conversion of {u['name']} to the common point unit of {names} is not x -> {a}*x + {b}",
                                        "class": "affine-measured", "rec": rec})
